@@ -8,13 +8,17 @@ argv literals) + correspondence of the model against
   hostkey-order    the real transports over stub library sessions that record call order
                    (paramiko, asyncssh; ssh2 over an injected stand-in `ssh2` package),
   hostkey-loopback the real paramiko / asyncssh libraries against in-process asyncssh servers that
-                   record every authentication attempt they receive,
+                   record every authentication attempt they receive; incl. host ALIASES (c10_alias.py): the
+                   name dialled is not the name under which the file carries the server's key (peer address
+                   in every entry form, another alias) — the entry for the DIALLED name decides,
   system-argv      _build_open_cmd, a stand-in `ssh` on PATH recording argv, and (when an ssh
                    binary exists) the real ssh client against the loopback servers,
   hostkey-history  (c10_hist.py) ONE transport / driver object opened, closed and opened again while the
-                   server behind the address is exchanged and / or known_hosts is edited in place: over the
-                   stubs (exact traces), the real libraries and the real ssh binary against recording servers
-                   behind a switchable address, and the stand-in ssh; model: run_history / sys_history.
+                   server behind the address is exchanged and / or known_hosts is edited — in place or replaced by
+                   rename, with the modification time moving or PINNED (same-size edits included), also seen by a
+                   new object over the same path: over the stubs (exact traces), the real libraries and the real ssh
+                   binary against recording servers behind a switchable address, and the stand-in ssh;
+                   model: run_history / sys_history / run_memo (the content at the moment of an open decides).
 The property itself is decided on the implementation's observations by an oracle that does not
 use the model (independent known_hosts reader; Python getopt with OpenSSH's option string)."""
 import asyncio
@@ -66,9 +70,12 @@ def hashed_host(rng, name):
 OTHER_HOSTS = ["10.0.0.1", "r1.example.net", "127.0.0.11", "27.0.0.1", "127.0.0.1.evil.example", "localhost", "::1", "router-1"]
 
 
-def gen_known_hosts(rng, keys, skey_name, relation, fmt, port, noise=True):
+def gen_known_hosts(rng, keys, skey_name, relation, fmt, port, noise=True, host=None):
     """known_hosts text for target HOST.  relation: absent | right | other_same | other_type | both.
-    fmt: plain | comma | hashed | bracket (standard [host]:port form).  keys: name -> (type, b64)."""
+    fmt: plain | comma | hashed | bracket (standard [host]:port form).  keys: name -> (type, b64).
+    host: the name the target lines are written for (default HOST; a near-miss name of the same length gives a
+    file of the same shape and size in which HOST has no entry — used by the same-size edits of the histories)."""
+    host = HOST if host is None else host
     others = [k for k in keys if k != skey_name]
     same = [k for k in others if keys[k][0] == keys[skey_name][0]]
     diff = [k for k in others if keys[k][0] != keys[skey_name][0]]
@@ -112,7 +119,7 @@ def gen_known_hosts(rng, keys, skey_name, relation, fmt, port, noise=True):
         if rng.random() < 0.5:
             target.reverse()
     for kn in target:
-        lines.insert(rng.randint(0, len(lines)), "%s %s %s" % (hostfield(HOST), keys[kn][0], keys[kn][1]))
+        lines.insert(rng.randint(0, len(lines)), "%s %s %s" % (hostfield(host), keys[kn][0], keys[kn][1]))
     return "\n".join(lines) + "\n"
 
 
@@ -518,13 +525,15 @@ class Keys:
         self.client_pub = lb.pub_b64(ck)
 
 
-def lib_verdict(khfile, host, port, skey_type, skey_b64):
+def lib_verdict(khfile, host, port, skey_type, skey_b64, addr=None):
     """what asyncssh itself decides for (file, host, port, server key) when it is given the file —
     computed with asyncssh's own matcher; mirrors SSHClientConnection's narrowing of host key
-    algorithms to those of the trusted keys.  None when asyncssh refuses to read the file."""
+    algorithms to those of the trusted keys.  None when asyncssh refuses to read the file.
+    addr: the peer address of the connection (asyncssh matches entries by the dialled name OR the peer
+    address); default: the host is dialled by its address."""
     from asyncssh.known_hosts import match_known_hosts
     try:
-        res = match_known_hosts(khfile, host, host, port if port != 22 else None)
+        res = match_known_hosts(khfile, host, addr or host, port if port != 22 else None)
     except Exception as e:  # noqa
         return None
     trusted, ca, revoked = res[0], res[1], res[2]
@@ -540,10 +549,11 @@ def lib_verdict(khfile, host, port, skey_type, skey_b64):
     return "Untrusted"
 
 
-def open_real(lib, port, strict, khfile, has_pw, key_path, via_driver=True):
+def open_real(lib, port, strict, khfile, has_pw, key_path, via_driver=True, host=None):
     """open the real transport (built by the real driver, so defaults and file resolution are the
-    code's own) against 127.0.0.1:port.  strict None = argument omitted.  Returns final event code."""
-    kw = dict(host=HOST, port=port, auth_username="u", timeout_socket=10, timeout_transport=10,
+    code's own) against 127.0.0.1:port — dialled as [host] (default: the address itself; an alias is a
+    name that resolves to it).  strict None = argument omitted.  Returns final event code."""
+    kw = dict(host=HOST if host is None else host, port=port, auth_username="u", timeout_socket=10, timeout_transport=10,
               ssh_known_hosts_file=khfile, ssh_config_file=False)
     if has_pw:
         kw["auth_password"] = "SECRETPW"
@@ -762,9 +772,9 @@ def run(rep):
     from scrapli.ssh_config import SSHKnownHosts
     install_lookup_recorder()
 
-    def scrapli_entry(khfile):
+    def scrapli_entry(khfile, host=HOST):
         try:
-            return SSHKnownHosts(khfile).lookup(HOST).get("public_key")
+            return SSHKnownHosts(khfile).lookup(host).get("public_key")
         except Exception as e:  # noqa
             return "EXC:" + type(e).__name__
 
@@ -828,8 +838,11 @@ def run(rep):
         order_cases.append(case)
         order_terms.append("(%s, %s, %s)" % (lib, coq_scen(sc), coq_bytes(trace)))
         # the stub asyncssh acts out [libv] whatever the file says: the oracle applies where that verdict is one
-        # the real library could give for this file (hypothesis lib_agrees: a missing/different key is never Trusted)
-        consistent = not (lib == "Asyncssh" and key_bad and libv == "Trusted")
+        # the real library could give for this file.  Trusted with NO entry for the host is one: asyncssh also matches the
+        # peer address (host aliases), so the oracle applies there — the transport must stop at its own presence check.
+        # Trusted with ANOTHER key under the host is the listed finding's region (c10-asyncssh-peer-address-entry,
+        # lib_agrees false): left to the replay of that finding
+        consistent = not (lib == "Asyncssh" and key_bad and libv == "Trusted" and rel != "absent")
         why = oracle_trace(sc, trace, key_bad) if consistent else None
         if why is None and lib == "Asyncssh" and strict and ckw is not None and ckw.get("known_hosts") not in (None, khfile):
             why = "asyncssh was handed known_hosts=%r, the resolved file is %r" % (ckw.get("known_hosts"), khfile)
@@ -852,31 +865,50 @@ def run(rep):
     # 3b. hostkey-loopback: real libraries against recording servers
     # ---------------------------------------------------------------------------------------------
     from . import c10_loopback as lb
+    from . import c10_alias as AL
     L = lb.Loopback()
     loop_cases, loop_terms, loop_fail, loop_domain = [], [], [], []
     hyp = {"checked": 0, "false": 0, "false_relations": {}, "false_on_single_entry": []}
+    hyp_alias = {"checked": 0, "false_by_region": {}, "false_outside_region": []}
+    alias_names = AL.loopback_names()
+    alias_known = {"signature": AL.SIG_PEER_ADDR, "replayed": False, "still_fails": None}
     try:
         servers = {}
         for sk in ("A", "R"):
             for acc in (True, False):
                 servers[(sk, acc)] = L.listen([keys.priv[sk]], accept=acc)
 
-        def one_loopback(lib, sk, acc, strict, relation, fmt, method, malformed=False, text=None):
+        def one_loopback(lib, sk, acc, strict, relation, fmt, method, malformed=False, text=None, dial=None, alias=None, signature=None):
+            """dial: the name the driver is given (default: the address); alias: (layout, nameform, carrier, carrier form)
+            of an alias scenario (c10_alias), the file is rendered from the layout"""
             port, slog = servers[(sk, acc)]
+            host = HOST if dial is None else dial
+            if alias is not None:
+                text = AL.render(sys.modules[__name__], rng, alias[0], port, keys.pub)
             if text is None:
                 if malformed:
                     text = gen_malformed_known_hosts(rng, keys.pub, sk, port)
                 else:
                     text = gen_known_hosts(rng, keys.pub, sk, relation, fmt, port)
             khfile = write_kh(text)
-            entry = scrapli_entry(khfile)
+            entry = scrapli_entry(khfile, host)
             sktype, skb64 = keys.pub[sk]
-            libv_any = lib_verdict(khfile, HOST, port, sktype, skb64)
+            libv_any = lib_verdict(khfile, host, port, sktype, skb64, addr=HOST)
             libv = libv_any if lib == "Asyncssh" else "Trusted"
             # hypothesis lib_agrees of the theorems, tested on this file: scrapli finds an entry and asyncssh
             # trusts the server key  =>  the entry is the server key
-            hyp["checked"] += 1
-            if isinstance(entry, str) and not entry.startswith("EXC:") and libv_any == "Trusted" and entry != skb64:
+            if alias is not None:
+                # files with separate entries for the name and for the peer address: where both exist with different keys the
+                # hypothesis is false (asyncssh trusts the union) — the listed finding's region, counted apart
+                hyp_alias["checked"] += 1
+                if isinstance(entry, str) and not entry.startswith("EXC:") and libv_any == "Trusted" and entry != skb64:
+                    k = "%s/%s" % (relation, alias[2])
+                    hyp_alias["false_by_region"][k] = hyp_alias["false_by_region"].get(k, 0) + 1
+                    if not (relation in ("other_same", "other_type") and alias[2].startswith("addr")):
+                        hyp_alias["false_outside_region"].append(text)
+            else:
+                hyp["checked"] += 1
+            if alias is None and isinstance(entry, str) and not entry.startswith("EXC:") and libv_any == "Trusted" and entry != skb64:
                 hyp["false"] += 1
                 hyp["false_relations"][str(relation)] = hyp["false_relations"].get(str(relation), 0) + 1
                 if relation != "both" and not malformed:
@@ -884,7 +916,7 @@ def run(rep):
             has_pw = method in ("password", "both")
             has_key = method in ("key", "both")
             del slog[:]
-            fin, ename, drv = open_real(lib, port, strict, khfile, has_pw, keys.client_key_path if has_key else "")
+            fin, ename, drv = open_real(lib, port, strict, khfile, has_pw, keys.client_key_path if has_key else "", host=host)
             got = list(slog)
             # asyncssh also tries password="" when no password is configured: an empty string is no credential
             pw_off = any(e[0] == "password" and e[2] != "" for e in got)
@@ -892,22 +924,27 @@ def run(rep):
             strict_eff = True if strict is None else strict
             sc = {"strict": strict_eff, "entry": entry, "skey": skb64, "libv": libv, "handshake_ok": True, "has_key": has_key,
                   "has_pw": has_pw, "has_user": True, "key_ok": acc, "pw_ok": acc, "kbd_ok": False}
-            key_bad = skb64 not in spec_entry_keys(text, HOST, port)
-            case = {"suite": "hostkey-loopback", "lib": lib, "server_key": sk, "server_accepts": acc, "strict_arg": strict,
+            key_bad = not any(skb64 in spec_entry_keys(text, n, port) for n in AL.oracle_names(host))
+            case = {"suite": "hostkey-loopback", "lib": lib, "dial": host, "server_key": sk, "server_accepts": acc, "strict_arg": strict,
                     "relation": relation, "format": fmt, "method": method, "malformed": malformed, "known_hosts": text,
                     "port": port, "key_table": {n: v[1] for n, v in keys.pub.items()},
                     "scrapli_lookup": None if entry is None else entry[:24] + "...", "asyncssh_verdict": libv,
                     "final": EVN.get(fin, fin), "exception": ename, "server_recorded": [list(e[:2]) + ["<%d chars>" % len(e[2])] for e in got],
                     "password_reached_server": pw_off, "key_reached_server": key_off, "key_missing_or_different": key_bad}
+            if alias is not None:
+                case.update({"alias_layout": alias[0], "name_form": alias[1], "carrier": alias[2], "carrier_form": alias[3]})
             why = None
             if strict_eff and key_bad:
                 if got:
-                    why = "the server (key %s) recorded %s although its key is missing from / different to the known_hosts entry" % (
-                        sk, sorted({e[0] for e in got}))
+                    why = "the server (key %s) recorded %s although its key is missing from / different to the known_hosts entry%s" % (
+                        sk, sorted({e[0] for e in got}), "" if dial is None else " for the dialled name %r" % host)
                 elif fin != EV["FailAuth"] and not malformed:
                     why = "attempt ended with %s instead of ScrapliAuthenticationFailed" % (ename or EVN.get(fin))
+            if signature and why and got and fin == EV["FailAuth"]:
+                case["signature"] = signature      # the listed finding, failing the listed way (credentials out, then the exception)
             if drv.transport.plugin_transport_args.auth_strict_key is not strict_eff:
                 why = "auth_strict_key argument %r reached the transport as %r" % (strict, drv.transport.plugin_transport_args.auth_strict_key)
+                case.pop("signature", None)
             comparable = (not malformed) and isinstance(entry, (str, type(None))) and not (isinstance(entry, str) and entry.startswith("EXC:")) and libv is not None
             # paramiko opens a second ssh-userauth service request for its second attempt, which the asyncssh
             # server answers with a disconnect: after a rejected key the password never reaches this server
@@ -925,7 +962,11 @@ def run(rep):
             for k in (lib, "key_" + sk, "rel_" + str(relation), "fmt_" + str(fmt), "method_" + method, "strict_" + str(strict),
                       "end_" + str(EVN.get(fin, fin)), "malformed" if malformed else "wellformed"):
                 d[k] = d.get(k, 0) + 1
-            rep.case(("loop", lib, sk, acc, strict, relation, fmt, method, malformed, text), nontrivial=strict_eff)
+            if alias is not None:
+                for k in ("alias", "alias_dial_" + host, "alias_carrier_%s_%s" % (alias[2], alias[3]), "alias_rel_%s" % relation,
+                          "alias_" + lib):
+                    d[k] = d.get(k, 0) + 1
+            rep.case(("loop", lib, host, sk, acc, strict, relation, fmt, method, malformed, text), nontrivial=strict_eff)
             return case, why
 
         # corpus first: the baseline defect (asyncssh, differing key, password) and its neighbours
@@ -964,6 +1005,21 @@ def run(rep):
         for _ in range(120 if thorough else 24):
             one_loopback(rng.choice(["Asyncssh", "Paramiko"]), rng.choice(["A", "R"]), rng.random() < 0.7,
                          rng.choice([None, True, True, False]), None, None, rng.choice(["password", "key", "both"]), malformed=True)
+        # host aliases: the name dialled is not the name under which the file carries the server's key (c10_alias)
+        for (lib, dial, rel, nameform, carrier, cform, method, sk, strict) in AL.plan(rng, alias_names, thorough):
+            lay = AL.gen_layout(rng, keys.pub, sk, dial, rel, nameform, carrier, cform, alias_names)
+            one_loopback(lib, sk, True, strict, rel, nameform, method, dial=dial, alias=(lay, nameform, carrier, cform))
+        # the listed finding of that family, replayed: still failing the same way => KNOWN-FINDING, else a note
+        kc = AL.known_case(alias_names)
+        if kc is not None:
+            (lib, dial, rel, nameform, carrier, cform, method, sk, strict) = kc
+            lay = [AL.name_entry(rng, dial, nameform, "B", "dial"), AL.name_entry(rng, AL.PEER, cform, sk, "carrier")]
+            _, why = one_loopback(lib, sk, True, strict, rel, nameform, method, dial=dial, alias=(lay, nameform, carrier, cform),
+                                  signature=AL.SIG_PEER_ADDR)
+            alias_known["replayed"] = True
+            alias_known["still_fails"] = bool(why)
+            if not why:
+                rep.notes.append("listed finding %s no longer reproduces (fixed?): update known_findings.d/C10.json" % AL.SIG_PEER_ADDR)
     finally:
         L.close()
     for c in loop_cases:
@@ -979,8 +1035,19 @@ def run(rep):
         "hypothesis_lib_agrees": {"files_checked": hyp["checked"], "false_on": hyp["false"], "false_by_relation": hyp["false_relations"],
                                   "meaning": "false only for two-line entries and in the malformed stream (wildcard lines) (relation both: scrapli's lookup keeps the last line, asyncssh trusts "
                                              "every line) — there the theorem does not apply and the property is observed only"},
+        "aliases": {"names_dialled": alias_names + [HOST], "cases": dist["loopback"].get("alias", 0),
+                    "hypothesis_lib_agrees": {"files_checked": hyp_alias["checked"], "false_by_region (relation of the dialled name / carrier)": hyp_alias["false_by_region"]},
+                    "listed_finding": alias_known,
+                    "meaning": "the driver is given a name that resolves to 127.0.0.1; the file carries the server's key under the peer address "
+                               "(plain / comma / hashed / [addr]:port / hashed [addr]:port / * pattern / CIDR block), another alias or an unrelated "
+                               "name, and nothing / another key / the right key under the dialled name; oracle: the entry for the DIALLED name decides"},
         "note": "observed on loopback, not proved: paramiko %s / asyncssh %s clients against in-process asyncssh servers" % (
             __import__("paramiko").__version__, __import__("asyncssh").__version__)}
+    if not alias_names:
+        rep.broken.append("no name other than the address resolves to 127.0.0.1 here: the alias scenarios could not run")
+    if hyp_alias["false_outside_region"]:
+        rep.broken.append("hypothesis lib_agrees is false on an alias file outside the listed region (name with another key + peer address with the server key)")
+        rep.notes.append("lib_agrees false on: %r" % hyp_alias["false_outside_region"][0])
 
     if hyp["false_on_single_entry"]:
         rep.broken.append("hypothesis lib_agrees is false on a single-entry known_hosts file")
@@ -1042,19 +1109,28 @@ def run(rep):
                 "hostkey-loopback: (lib, server key type, server accepts, strict omitted/True/False, relation incl. two-line entries, format incl. [host]:port, "
                 "method password/key/both) + malformed known_hosts stream; system-argv: random transport arguments incl. user open_cmd options that try to "
                 "switch checking off; hostkey-history: (history kind over roles genuine / other-same-type / other-type / absent per open, lib, via transport|driver, "
-                "strict, method, format) on ONE object with close() between the opens, + random histories over the stubs; "
+                "strict, method, format, edit mode of known_hosts: in place / renamed over, modification time moved / pinned) on ONE object "
+                "with close() between the opens (or a new object per open over one known_hosts path), + random histories over the stubs; "
+                "aliases: (lib, name dialled, what the file lists for that name, where else the server's key is listed: peer address plain / comma / "
+                "hashed / [addr]:port / hashed / pattern / CIDR, another alias, unrelated name, method, strict); "
                 "non-trivial = strict mode in effect (and the handshake succeeds); distinct = the full scenario tuple")
 
     # ---------------------------------------------------------------------------------------------
     # 4. verdicts
     # ---------------------------------------------------------------------------------------------
     def report(cases, fails, sigf=None):
-        for ix, why in fails[:4]:
+        shown = 0
+        for ix, why in fails:
             c = cases[ix]
+            sig = sigf(c) if sigf else None
+            if not sig:               # the first four; a replayed listed finding (signature) is always passed on
+                shown += 1
+                if shown > 4:
+                    continue
             rep.violation("%s: %s" % (c.get("suite"), why), {"suite": c.get("suite"), "case": c, "rerun": "./check C10 --replay <this file>"},
-                          signature=sigf(c) if sigf else None)
+                          signature=sig)
 
-    report(loop_cases, loop_fail)
+    report(loop_cases, loop_fail, sigf=lambda c: c.get("signature"))
     report(order_cases, order_fail)
     report(argv_cases, argv_fail)
     shown = {}
@@ -1194,41 +1270,54 @@ def real_ssh_suite(rep, keys, write_kh, thorough, dist):
     res = {"binary": exe, "cases": 0, "failures": 0}
     try:
         port, slog = L.listen([keys.priv["A"]], accept=True)
-        rels = [("other", keys.pub["B"]), ("absent", None), ("right", keys.pub["A"])]
-        for rel, k in rels:
-            for strict in ((None, True, False) if thorough else (None,)):
-                text = "" if k is None else "[%s]:%d %s %s\n" % (HOST, port, k[0], k[1])
-                kh = write_kh(text + "10.9.9.9 %s %s\n" % keys.pub["B"])
-                del slog[:]
-                kw = {} if strict is None else {"auth_strict_key": strict}
-                d = GenericDriver(host=HOST, port=port, auth_username="u", auth_password="SECRETPW", transport="system",
-                                  ssh_known_hosts_file=kh, ssh_config_file=False, timeout_socket=30, timeout_transport=30, timeout_ops=30, **kw)
-                try:
-                    d.open()
-                    fin = "Opened"
-                except Exception as e:  # noqa
-                    fin = type(e).__name__
-                try:
-                    d.close()
-                except Exception:  # noqa
-                    pass
-                got = list(slog)
-                res["cases"] += 1
-                strict_eff = strict is not False
-                rep.case(("realssh", rel, strict), nontrivial=strict_eff)
-                case = {"suite": "real-ssh", "relation": rel, "strict_arg": strict, "final": fin, "server_recorded": [e[0] for e in got]}
-                if strict_eff and rel != "right":
-                    if got:
-                        res["failures"] += 1
-                        rep.violation("real ssh binary: server recorded %s although its key is missing from / different to known_hosts" % [e[0] for e in got],
-                                      {"suite": "real-ssh", "case": case})
-                    elif "Timeout" in fin:
-                        res["inconclusive_timeouts"] = res.get("inconclusive_timeouts", 0) + 1    # machine too slow: nothing was sent, no verdict
-                    elif fin != "ScrapliAuthenticationFailed":
-                        res["failures"] += 1
-                        rep.violation("real ssh binary: attempt ended with %s instead of ScrapliAuthenticationFailed" % fin,
-                                      {"suite": "real-ssh", "case": case})
-                res.setdefault("outcomes", []).append([rel, str(strict), fin, len(got)])
+        from . import c10_alias as AL
+        names = AL.loopback_names()
+        rows = [(HOST, rel, k, strict) for rel, k in (("other", keys.pub["B"]), ("absent", None), ("right", keys.pub["A"]))
+                for strict in ((None, True, False) if thorough else (None,))]
+        # host aliases: dialled by a name of the machine, the file carries the server's key under the peer address only
+        # (alias-absent), or another key under the name and the right one under the address (alias-other)
+        if names:
+            rows.append((names[rep.rng.randrange(len(names))], "alias-absent", None, None))
+            if thorough:
+                rows += [(n, r, None, s) for n in names for r in ("alias-absent", "alias-other") for s in (None, True)]
+        for dial, rel, k, strict in rows:
+            text = "" if k is None else "[%s]:%d %s %s\n" % (HOST, port, k[0], k[1])
+            if rel.startswith("alias"):
+                text = "[%s]:%d %s %s\n" % (HOST, port, keys.pub["A"][0], keys.pub["A"][1])
+                if rel == "alias-other":
+                    text += "[%s]:%d %s %s\n" % (dial, port, keys.pub["B"][0], keys.pub["B"][1])
+            kh = write_kh(text + "10.9.9.9 %s %s\n" % keys.pub["B"])
+            del slog[:]
+            kw = {} if strict is None else {"auth_strict_key": strict}
+            d = GenericDriver(host=dial, port=port, auth_username="u", auth_password="SECRETPW", transport="system",
+                              ssh_known_hosts_file=kh, ssh_config_file=False, timeout_socket=30, timeout_transport=30, timeout_ops=30, **kw)
+            try:
+                d.open()
+                fin = "Opened"
+            except Exception as e:  # noqa
+                fin = type(e).__name__
+            try:
+                d.close()
+            except Exception:  # noqa
+                pass
+            got = list(slog)
+            res["cases"] += 1
+            strict_eff = strict is not False
+            rep.case(("realssh", dial, rel, strict), nontrivial=strict_eff)
+            case = {"suite": "real-ssh", "dial": dial, "relation": rel, "strict_arg": strict, "known_hosts": text, "final": fin,
+                    "server_recorded": [e[0] for e in got]}
+            if strict_eff and rel != "right":
+                if got:
+                    res["failures"] += 1
+                    rep.violation("real ssh binary: server recorded %s although its key is missing from / different to known_hosts" % [e[0] for e in got],
+                                  {"suite": "real-ssh", "case": case})
+                elif "Timeout" in fin:
+                    res["inconclusive_timeouts"] = res.get("inconclusive_timeouts", 0) + 1    # machine too slow: nothing was sent, no verdict
+                elif fin != "ScrapliAuthenticationFailed":
+                    res["failures"] += 1
+                    rep.violation("real ssh binary: attempt ended with %s instead of ScrapliAuthenticationFailed" % fin,
+                                  {"suite": "real-ssh", "case": case})
+            res.setdefault("outcomes", []).append([rel, str(strict), fin, len(got)] + ([dial] if dial != HOST else []))
     finally:
         L.close()
     return res
@@ -1285,7 +1374,12 @@ def replay(path):
             # run's keys from (relation, format); a malformed file is replayed literally with the keys substituted
             import random
             rng = random.Random(0)
-            if c.get("known_hosts") is not None and c.get("key_table"):
+            host = c.get("dial") or HOST
+            if c.get("alias_layout"):
+                # an alias scenario: the file is rebuilt from its layout for this run's port and keys
+                from . import c10_alias as AL
+                text = AL.render(sys.modules[__name__], rng, c["alias_layout"], port, keys.pub)
+            elif c.get("known_hosts") is not None and c.get("key_table"):
                 # the file of the run that found it, with that run's (throw-away) keys and port replaced by this run's
                 text = c["known_hosts"]
                 for n, old in c["key_table"].items():
@@ -1301,13 +1395,15 @@ def replay(path):
             kh = os.path.join(workdir, "kh")
             open(kh, "w").write(text)
             method = c["method"]
-            fin, ename, _ = open_real(c["lib"], port, c["strict_arg"], kh, method != "key", keys.client_key_path if method != "password" else "")
+            fin, ename, _ = open_real(c["lib"], port, c["strict_arg"], kh, method != "key", keys.client_key_path if method != "password" else "",
+                                      host=host)
             got = list(slog)
         finally:
             L.close()
         strict_eff = c["strict_arg"] is not False
-        key_bad = keys.pub[sk][1] not in spec_entry_keys(text, HOST, port)
-        print("transport:", c["lib"], " auth_strict_key:", c["strict_arg"], " method:", method)
+        from . import c10_alias as AL2
+        key_bad = not any(keys.pub[sk][1] in spec_entry_keys(text, n, port) for n in AL2.oracle_names(host))
+        print("transport:", c["lib"], " auth_strict_key:", c["strict_arg"], " method:", method, " dialled:", host, "(server on 127.0.0.1:%d)" % port)
         print("known_hosts:\n" + text)
         print("server host key:", keys.pub[sk][0], keys.pub[sk][1][:32] + "...")
         print("open() ended with:", ename or EVN.get(fin))
@@ -1366,7 +1462,23 @@ MANIFEST = {
             "transport.open()/close() and through Driver.open()/close()) opened against the genuine server, closed, and re-opened while the same "
             "address answers with another key (same type / other type), the reverse order, three opens, and known_hosts edited in place between "
             "the opens (entry replaced, removed, added, key roll + file update) — password and key auth, plain / hashed / comma entries; the oracle "
-            "is applied to EVERY open with the file content and the presented key of that open.",
+            "is applied to EVERY open with the file content and the presented key of that open. The file over time: every new version reaches the "
+            "path in one of four ways — written in place or renamed over the old file, with the modification time moved on or PINNED to the old value "
+            "(same-tick edit, cp -p, rsync -t; under a pinned time the versions are generated with the same shape, so that with keys of one type the "
+            "size stays too) — for the stub transports (paramiko, ssh2, asyncssh), the real libraries, the stand-in ssh and the real ssh binary, on one "
+            "object and with a NEW object per open over the same path. Coq: run_memo models a reader that may reuse what it read earlier "
+            "(memo state = version read + entry found; reuse test as a parameter): proved transparent (every open gets the events of the entry its own "
+            "content gives, hence the per-open guarantee with the content at that open deciding) whenever reuse implies equal content — in particular "
+            "for the code as written, which never reuses (obligation over Gen_HostKey.v: SSHKnownHosts has no class-/module-level state, no cache "
+            "decorator, no file-metadata call, reads and parses in __init__ with no early return, and the transports construct it inside every check) — "
+            "and refuted by vm_compute witnesses for a memo revalidated by modification time, or by modification time and size. "
+            "Host aliases (loopback, observed): the driver is given a NAME of the machine (localhost in two letter cases, further /etc/hosts names) "
+            "while known_hosts carries the server's key under the peer address (plain, comma-listed, hashed, [addr]:port, hashed [addr]:port, a * pattern, "
+            "a CIDR block), under another alias or an unrelated name, and nothing / another key / the right key under the dialled name; the oracle reads "
+            "the entry FOR THE DIALLED NAME (generous: lower-cased too). Listed finding c10-asyncssh-peer-address-entry (replayed on every run): another "
+            "key under the name + the server's key under the peer address => asyncssh trusts the union, the credentials go out before scrapli's own "
+            "comparison raises; in Coq the unconditional statement for asyncssh is refuted by that witness and the hypothesis `agrees` of the "
+            "partial is exactly the complement of that region.",
     "note": "Section variables / hypotheses: `lookup` (SSHKnownHosts parsing and lookup, owned by KnownHosts.v / C16) and `lib_verdict` (asyncssh's own "
             "known_hosts matcher) with hypothesis lib_agrees: when scrapli's lookup finds an entry, asyncssh trusts at most that entry's key — "
             "tested on every generated single-entry file, not proved; for two-line entries it is false and the property is then only observed. "
@@ -1387,7 +1499,17 @@ MANIFEST = {
             "session and the socket itself, as in the single-open suite: scrapli's paramiko close() only tears down when a channel exists, and a "
             "re-open over the socket left behind runs into paramiko's banner timeout (15 s, ScrapliConnectionNotOpened, nothing offered) — a "
             "lifecycle matter outside C10, kept out of the histories. The address whose server is exchanged is a TCP forwarder in front of the "
-            "recording servers (c10_loopback.Loopback.switch).",
+            "recording servers (c10_loopback.Loopback.switch). "
+            "File versions: the model inputs of a history (what scrapli's lookup / asyncssh's matcher say about a version) are computed from a copy of "
+            "that version under a path of its own, never from the history's path, so they depend on the content only; `inplace` and `rename` set the "
+            "modification time 2 s ahead explicitly (no dependence on the clock tick), the pinned modes restore the old value with os.utime. run_memo is "
+            "tied to the code by the generated facts only (there is no memo to drive); the real-ssh histories and the alias rows of the real-ssh suite "
+            "are oracle-only. Aliases: the model takes scrapli's lookup of the dialled name and asyncssh's verdict for (dialled name, peer address "
+            "127.0.0.1) as inputs and is compared by projection; the alias generator keeps away from the listed finding's region (asyncssh, dialled name "
+            "listed with another key in a port-less form, peer address listed with the server's key), where lib_agrees is false (counted in "
+            "coverage.correspondence_loopback.aliases). Numeric spellings of the address (127.1, 2130706433) are not used as aliases: ssh(1) rewrites "
+            "them to the canonical address before the lookup, so they are the address, not another name. Which names exist depends on the machine's "
+            "/etc/hosts (at least one is required, else the check reports the alias scenarios as not run).",
     "technique": "Coq proofs by case analysis over an event-trace model + generated-definition obligations + vm_compute correspondence against stubbed "
                  "and real (loopback) SSH libraries with recording servers",
 }
